@@ -165,6 +165,9 @@ type SelfTestResult struct {
 func (r *Report) Finish(start time.Time, explanation string, nd []string, trusted []string) int {
 	known := loadKnown()
 	vd := verifDir()
+	if d := os.Getenv("OXY_EVIDENCE_DIR"); d != "" {
+		vd = d // scratch runs (seed matrix) must not overwrite the committed evidence
+	}
 	_ = os.MkdirAll(filepath.Join(vd, "evidence", "violations"), 0o755)
 	// clear stale replay files of this property
 	if old, _ := filepath.Glob(filepath.Join(vd, "evidence", "violations", r.Prop+"_*.json")); old != nil {
